@@ -11,6 +11,7 @@ import io
 import json
 import multiprocessing
 import os
+import re
 import sys
 import time
 import traceback
@@ -73,6 +74,9 @@ def guarded(fn, case):
         fnm = last.tb_frame.f_code.co_filename if last is not None else ''
         if fnm.startswith(os.path.join(REPO, 'bitcoin') + os.sep):
             raise unexpected('oracle-call', e) from None
+        if isinstance(e, TypeError) and re.match(r'__\w+__ (returned|should return) ', str(e)):
+            # raised by the interpreter on behalf of a library object's special method (str(), hash(), len(), bool() ...)
+            raise unexpected('oracle-call/special-method', e) from None
         raise
 
 
